@@ -321,7 +321,7 @@ func genJobs(env *fw.Env) []fw.TLCJob {
 	// the retry layer of the IDManager (GenerateUniqueXxxID with the caller's check function): every pattern of
 	// pre-existing markers and of ids that exist in the caller's repository, two callers on one / two managers
 	if env.Tier == "quick" {
-		jobs = append(jobs, mcfg{mode: "uniq", procs: p2, layouts: l2, hasNX: true, ncands: 2, maxAtt: 2, maxCalls: 1, maxU: uniqMaxU}.job("gen:uniq:2x2x1", true, inU, 1))
+		jobs = append(jobs, mcfg{mode: "uniq", procs: p2, layouts: l2, hasNX: true, ncands: 2, maxAtt: 2, maxCalls: 1, maxU: uniqMaxU, faults: `"Check"`}.job("gen:uniq:2x2x1", true, inU, 1))
 	} else {
 		jobs = append(jobs, mcfg{mode: "uniq", procs: p2, layouts: l2, hasNX: true, ncands: 2, maxAtt: 2, maxCalls: 1, maxU: uniqMaxU, faults: `"Check"`}.job("gen:uniq:2x2x1:chk", true, inU, 4))
 	}
@@ -508,12 +508,10 @@ func expand(env *fw.Env, src string, raw json.RawMessage) []json.RawMessage {
 			stashMu.Unlock()
 		}
 	case strings.HasPrefix(src, "gen:uniq"):
-		// the code answers a FAILING check function with "assume the id is free" (IdGen_show_checkerr.cfg): behaviours
-		// in which that hands out an id of the repository are not driven (deliberate in the code, no caller in tunnox-core)
-		cand, inRepo := map[string]int{}, map[int]bool{}
-		for _, c := range m.Rp {
-			inRepo[c] = true
-		}
+		// the code answers a FAILING check function with "assume the id is free" (IdGen_show_checkerr.cfg: deliberate): those
+		// behaviours are driven too, the returned id is accepted (Ret.assumed) - what the call leaves behind is judged
+		cand := map[string]int{}
+		chkErr := false
 		last := false // some call reaches the model's last attempt: the part of the budget that matters
 		att := map[string]int{}
 		for _, s := range m.St {
@@ -526,8 +524,8 @@ func expand(env *fw.Env, src string, raw json.RawMessage) []json.RawMessage {
 					att[s.P]++
 					last = last || att[s.P] == uniqMaxU
 				}
-			case s.A == "UChk" && s.R == "ferr" && inRepo[cand[s.P]]:
-				return nil
+			case s.A == "UChk" && s.R == "ferr":
+				chkErr = true
 			}
 		}
 		uniqSeen.Add(1)
@@ -538,7 +536,7 @@ func expand(env *fw.Env, src string, raw json.RawMessage) []json.RawMessage {
 		// every twelfth of the others, one id kind each; thorough: every fourth of the former for ALL id kinds of the manager
 		apis := []string{uniqAPIs[h/16%len(uniqAPIs)]}
 		switch {
-		case env.Tier == "quick" && (last && h%10 != 0 || !last && h%12 != 0):
+		case env.Tier == "quick" && (chkErr && h%8 != 0 || !chkErr && (last && h%10 != 0 || !last && h%12 != 0)):
 			return nil
 		case env.Tier != "quick" && last && h%4 != 0:
 			return nil
@@ -741,7 +739,7 @@ func postDrive(env *fw.Env, traces []*fw.Trace) error {
 		"heartbeat ticker and the 90 s claim TTL run in virtual time): %d (split %d, same %d, local %d), %d of them left their script; "+
 		"each is closed by an allocation of a fresh node, %d fault-free periods and another allocation; the same kind of history with real waiting: thorough tier\n",
 		lease, leaseByW["split"], leaseByW["same"], leaseByW["local"], leaseDiv, 4)
-	fmt.Printf("[c15] retry layer of the IDManager: %d behaviours generated (after removing those with a failing check on a repository id), %d of them reach the last attempt of the budget (driven for every id kind, stretched to the code's 100 attempts)\n", uniqSeen.Load(), uniqLast.Load())
+	fmt.Printf("[c15] retry layer of the IDManager: %d behaviours generated (a failing check function included), %d of them reach the last attempt of the budget (driven for every id kind, stretched to the code's 100 attempts)\n", uniqSeen.Load(), uniqLast.Load())
 	followed, diverged := 0, 0
 	oosTraces, oosDup := 0, 0
 	divBySrc := map[string]int{}
@@ -811,7 +809,7 @@ func cloneTrace(t *fw.Trace, id int) *fw.Trace {
 	return c
 }
 
-// selfTest corrupts accepted traces in eight ways; the judge must reject every one.
+// selfTest corrupts accepted traces in nine ways; the judge must reject every one.
 func selfTest(env *fw.Env, acc []*fw.Trace) []*fw.Trace {
 	var out []*fw.Trace
 	next := 1 << 20
@@ -821,7 +819,7 @@ func selfTest(env *fw.Env, acc []*fw.Trace) []*fw.Trace {
 		out = append(out, c)
 	}
 	for _, t := range acc {
-		if len(out) >= 96 {
+		if len(out) >= 108 {
 			break
 		}
 		if len(t.Events) == 0 || t.Events[0]["scope"] != true {
@@ -879,7 +877,20 @@ func selfTest(env *fw.Env, acc []*fw.Trace) []*fw.Trace {
 					next++
 					c := cloneTrace(t, next)
 					c.Events[i]["id"] = rp[0]
+					delete(c.Events[i], "assumed")
 					add("repo", c)
+				}
+				// (i) ... and the returned id does exist there, accepted only because the check function had failed: drop that fact
+				if rp, _ := t.Events[0]["repo"].([]any); e["assumed"] == true && count["dropassumed"] < 12 {
+					for _, x := range rp {
+						if x == id {
+							next++
+							c := cloneTrace(t, next)
+							delete(c.Events[i], "assumed")
+							add("dropassumed", c)
+							break
+						}
+					}
 				}
 				// (b) a success returns a pre-existing id
 				if len(taken) > 0 && count["taken"] < 12 {
